@@ -37,10 +37,20 @@ def find_increment_helper(prog, cf: CacheFacts):
         if f.self_name is None or len(f.params) < 2:
             continue
         node = f.params[1]
+        from ..flow import Flow
+        from ..util import path_of
+        fl = Flow(f.node)
         for n in walk_own(f.node):
             if isinstance(n, ast.AugAssign) and isinstance(n.op, ast.Add):
-                d = dotted(n.target)
+                d = path_of(n.target, fl, keep=(node,)) if not isinstance(n.target, ast.Name) else None
                 if d and len(d) == 3 and d[0] == node and d[1] == cf.lf.payload:
+                    return f, d[2]
+            # the long way round:  item = node.data; new = item.count + by; item.count = new
+            if isinstance(n, ast.Assign) and len(n.targets) == 1 and isinstance(n.targets[0], ast.Attribute):
+                d = path_of(n.targets[0], fl, keep=(node,))
+                v = fl.expand(n.value) if isinstance(n.value, ast.Name) else n.value
+                if d and len(d) == 3 and d[0] == node and d[1] == cf.lf.payload and isinstance(v, ast.BinOp) and isinstance(v.op, ast.Add) \
+                        and any(path_of(side, fl, keep=(node,)) == d for side in (v.left, v.right) if isinstance(side, ast.Attribute)):
                     return f, d[2]
     raise AnalysisError("LFUCache: increment helper (node.<payload>.<count> += ...) not found")
 
@@ -122,10 +132,19 @@ class _HelperPaths(Client):
     def should_inline(self, func, call, ctx):
         return False
 
+    def _path(self, e, ctx):
+        from ..flow import Flow
+        from ..util import path_of
+        fl = getattr(ctx.func.node, "_flow", None)
+        if fl is None:
+            fl = ctx.func.node._flow = Flow(ctx.func.node)
+        return path_of(e, fl, keep=(self.n,))
+
     def event(self, kind, node, state, ctx):
-        if kind == "aug" and dotted(node.target) == (self.n, self.payload, self.cnt) and isinstance(node.op, ast.Add):
+        if kind == "aug" and isinstance(node.target, ast.Attribute) and self._path(node.target, ctx) == (self.n, self.payload, self.cnt) \
+                and isinstance(node.op, ast.Add):
             return (min(2, state + 1),)
-        if kind == "store" and isinstance(node, ast.Attribute) and dotted(node) == (self.n, self.payload, self.cnt):
+        if kind == "store" and isinstance(node, ast.Attribute) and self._path(node, ctx) == (self.n, self.payload, self.cnt):
             return (min(2, state + 1),)
         return (state,)
 
@@ -215,14 +234,6 @@ def r5_helper(prog, rep: Report, cf: CacheFacts, helper: Func, count_field: str)
     f = helper
     rep.fn(f)
     node = f.params[1]
-    body = f.node.body
-    aug_i = loop_i = None
-    loop = None
-    for i, st in enumerate(body):
-        if isinstance(st, ast.AugAssign) and dotted(st.target) == (node, lf.payload, count_field) and aug_i is None:
-            aug_i = i
-        if isinstance(st, ast.While) and loop_i is None:
-            loop_i, loop = i, st
     hp = Interp(prog, _HelperPaths(node, lf.payload, count_field))
     hex_ = hp.run(f, {0}, cf.cls)
     incs = sorted({s for s in hex_.normal | hex_.ret})
@@ -230,109 +241,187 @@ def r5_helper(prog, rep: Report, cf: CacheFacts, helper: Func, count_field: str)
               f"paths through the increment helper change the count {incs} times (an early exit before the increment loses a use)",
               scenario="capacity 2: A used 4 times while it is the last node of the list, B used 3 times; storing C must evict B, "
                        "but A's uses were not counted and A is evicted")
-    rep.check("C07.R5", f, "increment-before-scan", aug_i is not None and loop_i is not None and aug_i < loop_i,
-              "count incremented before the position scan",
+    # The helper is run on every *suffix world*: the nodes that follow the used node, up to three of them, each with a count
+    # smaller than / equal to / greater than the node's new count.  The helper's own tests decide every loop round, so the scan
+    # is followed round by round (no widening); what is compared, through which locals, in a helper of its own or not, does not
+    # matter.  Expected: the node ends up behind the last node of the leading run of smaller counts (or smaller-or-equal ones,
+    # ties are left open by the property, but then in every world); nothing moves when that run is empty.
+    from ..absint import RaiseExc
+    from ..paths import strip_versions
+    from ..symenv import SymClient, run_sym
+    N = ("p", node)
+
+    def depth_of(t):
+        """k when t is node.next^k (versions ignored), else None"""
+        t = strip_versions(t)
+        k = 0
+        while isinstance(t, tuple) and t[0] == "attr" and t[2] == lf.next_link:
+            t, k = t[1], k + 1
+        return k if t == N else None
+
+    def count_depth(t):
+        """k when t is node.next^k.<payload>.<count>"""
+        t0 = strip_versions(t)
+        if isinstance(t0, tuple) and t0[0] == "attr" and t0[2] == count_field and isinstance(t0[1], tuple) and t0[1][0] == "attr" \
+                and t0[1][2] == lf.payload:
+            return depth_of(t0[1][1])
+        return None
+
+    class _Scan(SymClient):
+        unroll_loops = True
+        max_depth = 10
+
+        def __init__(s_, world):
+            super().__init__()
+            s_.w = world
+            s_.moves = []
+            s_.old_count = False
+            s_.undecided = []
+            s_._ver = 0
+
+        def should_inline(s_, func, call, ctx):
+            return func.cls is cf.cls and func is not None and func.name.startswith("_") and not func.name.startswith("__")
+
+        def refine(s_, test, state, ctx):
+            s_._ver = state[1]
+            return super().refine(test, state, ctx)
+
+        def _count_val(s_, t, user):
+            k = count_depth(t)
+            t0 = strip_versions(t)
+            if k is None and isinstance(t0, tuple) and t0[0] == "bin" and t0[1] == "Add" and 0 in (count_depth(t0[2]), count_depth(t0[3])):
+                return 0                               # the new count, computed ahead of its store (`new = item.count + by`)
+            if k is None:
+                return None
+            if k == 0:
+                if "incremented" not in (user or ()):
+                    s_.old_count = True
+                return 0
+            if k > len(s_.w):
+                return None
+            return {"LT": -1, "EQ": 0, "GT": 1}[s_.w[k - 1]]
+
+        def is_none(s_, term, env, user, ctx):
+            k = depth_of(term)
+            if k is not None:
+                return k > len(s_.w)
+            return super().is_none(term, env, user, ctx)
+
+        def decide(s_, term, node_, env, user, ctx):
+            t, neg = term, False
+            while t[0] == "not":
+                t, neg = t[1], not neg
+            r = None
+            if t[0] == "cmp":
+                if t[1] in ("Is", "IsNot"):
+                    a, b = depth_of(t[2]), depth_of(t[3])
+                    if a is not None and b is not None:
+                        r = (a == b) if t[1] == "Is" else (a != b)
+                else:
+                    a, b = s_._count_val(t[2], user), s_._count_val(t[3], user)
+                    if a is not None and b is not None:
+                        r = {"Lt": a < b, "LtE": a <= b, "Gt": a > b, "GtE": a >= b, "Eq": a == b, "NotEq": a != b}.get(t[1])
+            else:
+                k = depth_of(t)
+                if k is not None:
+                    r = k <= len(s_.w)            # truthiness of a node / None
+            if r is None:
+                s_.undecided.append(src(node_))
+                fl_ = s_.pack(env, s_._ver, tuple(sorted(set(user or ()) | {"undecided"})))
+                return ((fl_,), (fl_,))
+            return r != neg
+
+        def on(s_, kind, node_, env, ver, user, ctx):
+            if kind == "load" and isinstance(node_, ast.Attribute):
+                # reading a field of a node that does not exist
+                b = depth_of(s_.sym(node_.value, env, ver, ctx))
+                if b is not None and b > len(s_.w):
+                    return RaiseExc(s_.pack(env, ver, user), "AttributeError")
+            if kind in ("aug", "store"):
+                tgt = node_.target if kind == "aug" else node_
+                if isinstance(tgt, ast.Attribute) and count_depth(s_.sym(ast.Attribute(value=tgt.value, attr=tgt.attr, ctx=ast.Load()), env, ver, ctx)) == 0:
+                    return [(env, ver, tuple(sorted(set(user or ()) | {"incremented"})))]
+            if kind == "call" and isinstance(node_, ast.Call) and isinstance(node_.func, ast.Attribute) and cf.is_list(node_.func.value, ctx.func):
+                args = tuple(depth_of(s_.sym(a, env, ver, ctx)) for a in node_.args)
+                mv = ("move", node_.func.attr, args)
+                return [(env, ver, tuple(sorted(set(user or ()) | {mv}, key=repr)))]
+            return None
+
+    def worlds():
+        out = [()]
+        for n_ in (1, 2, 3):
+            def rec(prefix):
+                if len(prefix) == n_:
+                    out.append(tuple(prefix))
+                    return
+                for c_ in ("LT", "EQ", "GT"):
+                    rec(prefix + [c_])
+            rec([])
+        return out
+    strict_bad, loose_bad, unrec, old = [], [], [], False
+    n_worlds = 0
+    for w in worlds():
+        cl = _Scan(w)
+        it_, ex_ = run_sym(prog, cl, f, cf.cls, user=())
+        n_worlds += 1
+        if it_.unrecognised:
+            unrec.append("; ".join(it_.unrecognised))
+            continue
+        old = old or cl.old_count
+        k_strict = 0
+        while k_strict < len(w) and w[k_strict] == "LT":
+            k_strict += 1
+        k_loose = 0
+        while k_loose < len(w) and w[k_loose] in ("LT", "EQ"):
+            k_loose += 1
+        outs = set()
+        for st_ in ex_.ret | ex_.normal:
+            u = st_[2] or ()
+            mv = tuple(x for x in u if isinstance(x, tuple) and x[0] == "move")
+            outs.add((mv, "undecided" in u))
+        for st_, nm in ex_.exc:
+            outs.add((("raise", nm), "undecided" in (st_[2] or ())))
+
+        def ok_for(k, mv):
+            if mv and mv[0] == "raise":
+                return False
+            if k == 0:
+                return mv == ()
+            return len(mv) == 1 and mv[0][1] == "move_after" and mv[0][2] == (0, k)
+        if any(u for _, u in outs) and not all(ok_for(k_strict, mv) for mv, u in outs):
+            unrec.append(f"for the followers {list(w)} the outcome depends on a test that is not about the counts or the links: {cl.undecided[:1]}")
+            continue
+        if not all(ok_for(k_strict, mv) for mv, _ in outs):
+            strict_bad.append((w, sorted(outs, key=repr)))
+        if not all(ok_for(k_loose, mv) for mv, _ in outs):
+            loose_bad.append((w, sorted(outs, key=repr)))
+    rep.count("suffix_worlds", n_worlds)
+    rep.check("C07.R5", f, "increment-before-scan", not old, "the scan compares against the node's new count",
               "the count is not incremented before the scan: the node is positioned by its old count",
               scenario="after a use the node stays in front of nodes with a smaller count; the victim is not minimal")
-    if loop is None:
-        rep.unrec("C07.R5", f, "scan", "no scan loop found")
-        return
-    # scan condition, evaluated over the three orderings of (count of the next node, count of the node) with the next node
-    # present: the scan must go on exactly while next.count < node.count (or <=: ties are left open by the property)
-    from ..flow import Flow
-    from ..orderings import NotAFormula, eval_order, weak_orderings
-    flow = Flow(f.node)
-    cursor = None
-    for sub in ast.walk(loop.test):
-        d_ = dotted(sub) if isinstance(sub, ast.Attribute) else None
-        if d_ and len(d_) == 4 and d_[1] == lf.next_link and d_[-2:] == (lf.payload, count_field) and d_[0] != node:
-            cursor = d_[0]
+    if unrec:
+        rep.unrec("C07.R5", f, "scan", unrec[0])
+        rep.unrec("C07.R5", f, "move", unrec[0])
+    elif not strict_bad or not loose_bad:
+        rep.ok("C07.R5", f, "scan", f"the node ends behind the leading run of {'smaller' if not strict_bad else 'smaller-or-equal'} counts "
+               f"in each of {n_worlds} suffix worlds (followers up to three, every path)")
+        rep.ok("C07.R5", f, "move", "one move_after(node, last node of the run) when the run is not empty, no list operation otherwise")
+    else:
+        w, outs = strict_bad[0]
 
-    def _ev(e, env):
-        if isinstance(e, ast.BoolOp):
-            vals = [_ev(v, env) for v in e.values]
-            return all(vals) if isinstance(e.op, ast.And) else any(vals)
-        if isinstance(e, ast.UnaryOp) and isinstance(e.op, ast.Not):
-            return not _ev(e.operand, env)
-        if isinstance(e, ast.Compare) and len(e.ops) == 1 and isinstance(e.ops[0], (ast.Is, ast.IsNot)) \
-                and isinstance(e.comparators[0], ast.Constant) and e.comparators[0].value is None:
-            d2 = dotted(e.left)
-            if d2 == (cursor, lf.next_link):
-                return isinstance(e.ops[0], ast.IsNot)        # the next node exists
-            raise NotAFormula(src(e))
-
-        def term(x):
-            d3 = dotted(x)
-            if d3 == (cursor, lf.next_link, lf.payload, count_field):
-                return env["next"]
-            if d3 == (node, lf.payload, count_field):
-                return env["node"]
-            return None
-        return eval_order(e, env, term)
-    if cursor is None:
-        rep.unrec("C07.R5", f, "scan", f"scan condition not recognised: {src(loop.test)}")
-    else:
-        try:
-            W = weak_orderings(["next", "node"])
-            got = {(w["next"] < w["node"], w["next"] == w["node"]): _ev(loop.test, w) for w in W}
-            strict = got.get((True, False)) is True and got.get((False, True)) is False and got.get((False, False)) is False
-            loose = got.get((True, False)) is True and got.get((False, True)) is True and got.get((False, False)) is False
-            rep.check("C07.R5", f, "scan", strict or loose, f"scan continues while next.count < / <= node.count ({src(loop.test)})",
-                      f"scan condition `{src(loop.test)}` does not walk past exactly the nodes with a smaller count",
-                      scenario="counts 1,2,3 in the list; using the count-1 node twice must place it behind the 2; a wrong "
-                               "comparison leaves the list unsorted and a non-minimal key is evicted", line=loop.lineno)
-        except NotAFormula as e:
-            rep.unrec("C07.R5", f, "scan", f"scan condition not recognised: {src(loop.test)} ({e})")
-    # step: cursor = cursor.next (possibly through a local that names the next node)
-    steps, others = [], []
-    for st in loop.body:
-        if isinstance(st, ast.Assign) and len(st.targets) == 1 and isinstance(st.targets[0], ast.Name):
-            tgt = st.targets[0].id
-            ex_ = flow.expand(st.value) if isinstance(st.value, ast.Name) else st.value
-            if tgt == cursor and dotted(ex_) == (cursor, lf.next_link):
-                steps.append(st)
-                continue
-            if tgt != cursor and dotted(st.value) and dotted(st.value)[0] in (cursor, node):
-                continue            # a read-only alias (following = cursor.next)
-        others.append(st)
-    wrong_way = [st for st in loop.body if isinstance(st, ast.Assign) and isinstance(st.targets[0], ast.Name)
-                 and st.targets[0].id == cursor and dotted(st.value) == (cursor, lf.prev_link)]
-    if wrong_way:
-        rep.viol("C07.R5", f, "scan-step", f"the scan steps along .{lf.prev_link}: it walks towards the head",
-                 scenario="scan walks the wrong direction", line=loop.lineno)
-    elif len(steps) == 1 and not others:
-        rep.ok("C07.R5", f, "scan-step", "scan advances along the next link")
-    else:
-        rep.unrec("C07.R5", f, "scan-step", f"scan body is not a single step along .{lf.next_link} (plus read-only aliases)", line=loop.lineno)
-    # move: guarded by identity, move_after(node, cursor)
-    moved = None
-    for st in body[(loop_i or 0) + 1:]:
-        for call in ast.walk(st):
-            if isinstance(call, ast.Call) and isinstance(call.func, ast.Attribute) and cf.is_list(call.func.value, f):
-                args = [a.id if isinstance(a, ast.Name) else None for a in call.args]
-                guard = st.test if isinstance(st, ast.If) else None
-                ident = guard is not None and isinstance(guard, ast.Compare) and isinstance(guard.ops[0], (ast.IsNot, ast.Is)) \
-                    and {src(guard.left), src(guard.comparators[0])} == {node, cursor or "?"}
-                if not ident:
-                    # guard clause form:  if cursor is node: return   ...   move(node, cursor)
-                    for g_ in body[(loop_i or 0) + 1:body.index(st)]:
-                        if isinstance(g_, ast.If) and isinstance(g_.test, ast.Compare) and isinstance(g_.test.ops[0], ast.Is) \
-                                and {src(g_.test.left), src(g_.test.comparators[0])} == {node, cursor or "?"} \
-                                and g_.body and isinstance(g_.body[-1], ast.Return) and not g_.orelse:
-                            ident = True
-                tgt = prog.resolve(lf.lst, call.func.attr)
-                good_args = tgt is not None and len(tgt.params) == 3 and args == [node, cursor]
-                moved = (ident, good_args, call)
-    if moved is None:
-        rep.unrec("C07.R5", f, "move", "no list move after the scan")
-    else:
-        ident, good_args, call = moved
-        rep.check("C07.R5", f, "move", ident and good_args,
-                  f"node moved after the scan cursor under an identity guard: {src(call)}",
-                  ("the move is not guarded by an identity test of node vs. cursor" if not ident else
-                   f"move arguments are not (node, cursor): {src(call)}"),
-                  scenario="moving a node after itself corrupts the links; moving the cursor after the node unsorts the list",
-                  line=call.lineno)
+        def say(o):
+            mv = o[0]
+            if mv and mv[0] == "raise":
+                return f"raises {mv[1]}"
+            if not mv:
+                return "does not move the node"
+            return "; ".join(f"{m[1]}(node, {'node' + '.next' * (m[2][1] or 0) if len(m[2]) > 1 and m[2][1] is not None else '?'})" for m in mv)
+        rep.viol("C07.R5", f, "scan", f"with followers whose counts are {list(w)} (relative to the node's new count) the helper "
+                 f"{' / '.join(say(o) for o in outs)}: the node does not end up behind exactly the leading run of smaller counts",
+                 scenario="counts 1,2,3 in the list; using the count-1 node twice must place it behind the 2; a wrong "
+                          "comparison leaves the list unsorted and a non-minimal key is evicted")
+        rep.viol("C07.R5", f, "move", "see the scan instance: the list operation made does not match the run of smaller counts",
+                 scenario="moving a node after itself corrupts the links; moving the cursor after the node unsorts the list")
 
 
 def r6_item_layout(prog, rep: Report, cf: CacheFacts, count_field: str):
@@ -375,7 +464,9 @@ def r6_item_layout(prog, rep: Report, cf: CacheFacts, count_field: str):
               f"reuse path writes key -> .{reuse.get(k)}, value -> .{reuse.get(v)} (constructor: .{kf}, .{vf})",
               scenario="after an eviction the reused node reports the old key or a swapped key/value")
     g = cf.getitem
-    rv = [dotted(r.value) for r in returns_of(g.node) if r.value is not None]
+    gflow = Flow(g.node)
+    rv = [path_of(gflow.expand(r.value) if isinstance(r.value, ast.Name) else r.value, gflow, keep=(g.self_name,))
+          for r in returns_of(g.node) if r.value is not None]
     rep.check("C07.R6", g, "lookup-returns-value", bool(rv) and all(d and d[-1] == vf and d[-2] == cf.lf.payload for d in rv),
               f"lookup returns .{vf}", f"lookup returns {rv} instead of the value field .{vf}",
               scenario="c['a'] = 1; c['a'] returns the key or the count")
